@@ -152,8 +152,8 @@ Field(sim, n, i) ==
     [] n = "PC" -> r[rPC] [] n = "MEMPTR" -> r[rMEMPTR] [] n = "tstates" -> r[rT] [] n = "iff" -> r[rIFF] [] n = "im" -> r[rIM]
     [] n = "halted" -> r[rHALT] [] n = "7ffd" -> sim.o7 [] n = "fffd" -> sim.fffd [] n = "ay" -> sim.ay[i + 1]
 
-\* a parameter value: an integer, or a replacement field {sim[name]} ("may contain replacement fields")
-Val(sim, v) == IF v.k = 0 THEN v.v ELSE Field(sim, v.f, v.i)
+\* a parameter value: an integer, or a replacement field {sim[name]} plus a constant ("may contain replacement fields")
+Val(sim, v) == IF v.k = 0 THEN v.v ELSE Field(sim, v.f, v.i) + v.v
 
 \* named parameter lookup; -1 = not given
 Given(ps, n) == \E i \in 1..Len(ps) : ps[i].n = n
